@@ -350,14 +350,30 @@ def _read_alignment(world, lib, read):
         else:
             cigar.append([op, n])
 
+    gaps = sorted(tuple(g) for g in read.get("gaps", []) if st + 10 < g[0] < g[1] < en - 10)
+
+    def emit_ref(a, b):
+        """reference bases a..b, with the read's long deletions (CIGAR D) cut out"""
+        for (ga, gb) in gaps:
+            if a < gb and ga < b:
+                if a < ga:
+                    out.append(seq[a:ga])
+                    push(0, ga - a)
+                push(2, min(b, gb) - max(a, ga))
+                a = min(b, gb)
+        if a < b:
+            out.append(seq[a:b])
+            push(0, b - a)
+
     p = st
     for pos, ref, alt, k in vars_here:
         if pos < st or pos >= en:
             continue
         if pos < p:
             continue
-        out.append(seq[p:pos])
-        push(0, pos - p)
+        if any(ga - 3 <= pos < gb + 3 or ga - 3 <= pos + len(ref) < gb + 3 for (ga, gb) in gaps):
+            continue  # inside (or touching) a deleted stretch: the read says nothing about this variant
+        emit_ref(p, pos)
         allele = truth[k]
         if allele == 0:
             out.append(ref)
@@ -375,8 +391,7 @@ def _read_alignment(world, lib, read):
                 push(2, len(ref) - len(alt))
         p = pos + len(ref)
     if p < en:
-        out.append(seq[p:en])
-        push(0, en - p)
+        emit_ref(p, en)
     s = "".join(out)
     if cigar and cigar[-1][0] != 0:
         return None
